@@ -94,6 +94,7 @@ type exec struct {
 	uuidAxioms  map[int]bool
 	uuidTerms   []*Term
 	uuidSubst   map[string]string
+	facts       map[int]bool // terms whose truth value the path condition fixes syntactically
 
 	cover map[*ssa.Function]int // per worker, cumulative
 	stats workerStats
@@ -191,6 +192,7 @@ func (ex *exec) resetPath(prefix []int) {
 	ex.uuidAxioms = nil
 	ex.uuidTerms = nil
 	ex.uuidSubst = nil
+	ex.facts = map[int]bool{}
 	ex.solver.Reset()
 	if ex.fp != nil {
 		ex.fp.Reset()
@@ -203,6 +205,7 @@ func (ex *exec) assertPC(c *Term) {
 		return
 	}
 	ex.pcTerms = append(ex.pcTerms, c)
+	ex.learn(c, true)
 	ex.solver.Assert(c)
 	if ex.fp != nil {
 		ex.fp.Assert(c)
@@ -250,6 +253,13 @@ func (ex *exec) decide(kind string, opts []*Term) int {
 	}
 	var feasible []int
 	for i, o := range opts {
+		if v, known := ex.facts[o.id]; known && !o.isConst() {
+			if v {
+				feasible = []int{i}
+				break
+			}
+			continue
+		}
 		if o.isConst() {
 			if o.cv.(bool) {
 				feasible = append(feasible, i)
@@ -288,6 +298,22 @@ func (ex *exec) decide(kind string, opts []*Term) int {
 	ex.decisions = append(ex.decisions, decision{kind, len(opts), c})
 	ex.assertPC(opts[c])
 	return c
+}
+
+// learn records the truth value of c (and of its conjuncts) implied by asserting it.
+func (ex *exec) learn(c *Term, val bool) {
+	switch {
+	case c.op == "not":
+		ex.learn(c.args[0], !val)
+		return
+	case c.op == "and" && val:
+		ex.learn(c.args[0], true)
+		ex.learn(c.args[1], true)
+	case c.op == "or" && !val:
+		ex.learn(c.args[0], false)
+		ex.learn(c.args[1], false)
+	}
+	ex.facts[c.id] = val
 }
 
 // branch decides a symbolic condition.
